@@ -274,7 +274,8 @@ def relation_tags(d, e):
 
 
 def _pair_job(arg):
-    ci, d, e, tabseed, e_first, ones_as_none = arg
+    ci, d, e, tabseed, e_first, ones_as_none = arg[:6]
+    prelude = len(arg) > 6 and arg[6]
     cfg = c12_configs()[ci]
     from sklearn.base import clone
 
@@ -297,6 +298,22 @@ def _pair_job(arg):
         X, y, w = tab.data(D, task, n_annot)
         use_w = cfg["weights"] and not ones_as_none
         calls.append({"X": X.tolist(), "y": y.tolist(), "sample_weight": w.tolist() if use_w else None})
+        if prelude and k == 0:
+            # the user's arrays live through a pool loop: the labels of D were revealed one after the other
+            # (in a seeded order) and a throw-away model was fitted at every stage on the SAME X / w arrays;
+            # the final fit below sees all labels of D - revealing them in this order must not matter
+            lab = [r for r in range(len(D)) if not np.all(np.isnan(np.atleast_1d(y[r])))]
+            order_r = list(np.random.RandomState(tabseed + 7).permutation(lab))
+            y_stage = np.full_like(y, np.nan)
+            stages = []
+            for r in order_r[:-1]:
+                y_stage[r] = y[r]
+                try:
+                    train(clone(proto), "Fit", X, y_stage.copy(), w, use_w)
+                except Exception:
+                    pass
+                stages.append(int(r))
+            calls[-1]["labels_revealed_before_in_row_order"] = stages
         try:
             train(obj, "Fit", X, y, w, use_w)
             n_eval += 1
@@ -395,7 +412,8 @@ def main(tier="quick", seed=0):
             for j in pick:
                 d, e = lst[int(j)]
                 ones_none = bool(_all_ones(d, e) and rng.rand() < 0.5)
-                jobs.append((ci, d, e, int(rng.randint(0, 4) + 10 * seed), bool(rng.rand() < 0.5), ones_none))
+                jobs.append((ci, d, e, int(rng.randint(0, 4) + 10 * seed), bool(rng.rand() < 0.5), ones_none,
+                             bool(rng.rand() < 0.4)))
     jobs = [jobs[int(j)] for j in rng.permutation(len(jobs))]   # spread slow estimators over the workers
     out = pmap(_pair_job, jobs)
     traces = []
